@@ -3,6 +3,7 @@
 mod alloc;
 mod e1;
 mod p_xfer;
+mod p_proto;
 mod fs;
 mod gen;
 mod pure_codec;
@@ -74,6 +75,9 @@ fn main() {
         "C01" => p_xfer::run_c01(&tier, seed, r),
         "C02" => p_xfer::run_c02(&tier, seed, r),
         "C03" => p_xfer::run_c03(&tier, seed, r),
+        "C18" => p_proto::run_c18(&tier, seed, r),
+        "C19" => p_proto::run_c19(&tier, seed, r),
+        "C20" => p_proto::run_c20(&tier, seed, r),
         "C13a" => {
             let mut rep = report::Report::new();
             fs::run_c13a(&mut rep, &tier, seed, r);
